@@ -103,6 +103,30 @@ def handle (words : List String) : String :=
         | .unmodelled => "unmodelled"
       "model=" ++ outc ++ " out=" ++ hexOfBytes r.st.output ++ " vars=" ++
         ";".intercalate (r.st.vars.map fun (n, v) => n ++ ":" ++ valStr v)
+  | ["progs", fuel, hex1, hex2] =>
+    -- two programs run one after the other in the same context (the second also sees the functions of the first)
+    match SExp.readProgram (String.fromUTF8! (ByteArray.mk (bytesOfHex hex1).toArray)),
+          SExp.readProgram (String.fromUTF8! (ByteArray.mk (bytesOfHex hex2).toArray)) with
+    | some p1, some p2 =>
+      let fu := fuel.toNat?.getD 100000
+      let showO := fun (o : Res (Option Val)) => match o with
+        | .ok (some v) => "ok " ++ valStr v
+        | .ok none => "ok-"
+        | .err c a => if c == oofCode then "oof" else resStr (.err c a : Res Val)
+        | .haz h => resStr (.haz h : Res Val)
+        | .unmodelled => "unmodelled"
+      let r1 := runProgram fu p1
+      let funcs := collectFuncs (p1 ++ p2)
+      let vars0 := (mainDecls funcs p2).foldl (fun vs (n, t) => if vs.any (·.1 == n) then vs else vs ++ [(n, Val.null t)]) r1.st.vars
+      let st1 : St := { r1.st with vars := vars0, returned := none, budget := 300000 }
+      let r2 : RunResult := match execList funcs 0 fu p2 st1 with
+        | (.ok _, s) => { outcome := .ok s.returned, st := s }
+        | (.err c a, s) => { outcome := .err c a, st := s }
+        | (.haz h, s) => { outcome := .haz h, st := s }
+        | (.unmodelled, s) => { outcome := .unmodelled, st := s }
+      "model=" ++ showO r1.outcome ++ ";" ++ showO r2.outcome ++ " out=" ++ hexOfBytes r2.st.output ++ " vars=" ++
+        ";".intercalate (r2.st.vars.map fun (n, v) => n ++ ":" ++ valStr v)
+    | _, _ => "bad-prog"
   | "bi" :: name :: vs =>
     -- built-in call with already evaluated arguments (static types = value types)
     match vs.mapM parseVal with
